@@ -14,3 +14,10 @@ package utils
 //@   props C06 C07
 //@   nopanic
 //@   ensures result <= x && result <= y && (result == x || result == y)
+
+//@ func AsciiLower
+//@   props C06 C07 C08
+//@   nopanic
+//@   modifies nothing
+//@   loop 1 invariant fresh(out)
+//@   loop 1 decreases len(rs) - rangeindex
